@@ -189,7 +189,10 @@ class Derived(Harness):
 
     def sym(self, ctx, cfg):
         for si, seq in enumerate(cfg['seqs']):
-            hist = [cfg['first']] + list(seq) + ['W'] if not any(
+            # receive filters are set right after the precoders (unless the
+            # history sets them itself) so that reads of the derived filters
+            # are meaningful and later updates must invalidate them
+            hist = [cfg['first'], 'W'] + list(seq) if not any(
                 o in ('W', 'WH') for o in seq) else [cfg['first']] + list(seq)
             recs = core.explore(
                 lambda c, hist=hist, si=si: self._one(c, cfg, hist, si),
@@ -230,6 +233,7 @@ class Derived(Harness):
             def herm(a):
                 return C.herm(a)
 
+        ctx.cdiv_mode = 'atom'      # 1/(w^H H f) as defined atoms
         H, ch, sol = self._setup(cfg, Mk)
         sol._rs = _StubRS()
         sh = _Shadow(cfg['K'])
@@ -270,6 +274,10 @@ class Derived(Harness):
         prove('Ns=columns', d_ns if d_ns else [np.array([0.0])])
         if sh.WH is not None:
             d_w, d_eq, d_fw = [], [], []
+            # full_W is read BEFORE full_W_H: each getter must be right on
+            # its own (a getter that is only refreshed as a side effect of
+            # the other one would otherwise be repaired by the read order)
+            full_W_first = [sol.full_W[k] for k in range(K)]
             for k in range(K):
                 d_w.append(sol.W_H[k] - sh.WH[k])
                 d_w.append(sol.W[k] - Mk.herm(sh.WH[k]))
@@ -277,7 +285,10 @@ class Derived(Harness):
                 fwh = sol.full_W_H[k]
                 eq = np.dot(fwh, np.dot(Hkk, fullF[k]))
                 d_eq.append(eq - np.eye(Ns[k]))
-                d_fw.append(sol.full_W[k] - Mk.herm(fwh))
+                d_fw.append(full_W_first[k] - Mk.herm(fwh))
+                eq2 = np.dot(Mk.herm(full_W_first[k]),
+                             np.dot(Hkk, fullF[k]))
+                d_eq.append(eq2 - np.eye(Ns[k]))
             prove('W=(W_H)^H', d_w)
             prove('full_W_H*Hkk*full_F=I', d_eq)
             prove('full_W=(full_W_H)^H', d_fw)
@@ -340,7 +351,7 @@ class Derived(Harness):
     def concrete(self, cfg, rng):
         n = 0
         for seq in cfg['seqs'][:10]:
-            hist = [cfg['first']] + list(seq) + ['W']
+            hist = [cfg['first'], 'W'] + list(seq)
             bad = self._numeric(cfg, hist, rng)
             if bad and _classify(hist, bad) not in KNOWN_CLASSES:
                 raise AssertionError('%r: %r' % (hist, bad))
